@@ -55,8 +55,11 @@ let model _ l = match words l with
         | None -> "sigparsefail"
         | Some rs -> b01 (M.ecdsa_verify rs (unhx m) pt) ^ " " ^ b01 (M.node_ecdsa_verify rs (unhx m) pt)))
   | ["sign"; k; m] ->
-    (* no model of RFC6979 nonces here: the signature is judged by `holds` (valid, low S, for the right key) *)
-    if M.ec_seckey_verify (unhx k) then "sig" else "invalidkey"
+    (* CKey::Sign: RFC6979 nonce, low-S, low-R grinding; the signature must be byte-equal *)
+    if not (M.ec_seckey_verify (unhx k)) then "invalidkey" else
+    (match M.ckey_sign_exec (unhx m) (unhx k), M.ec_pubkey_create (unhx k) with
+     | Some (r, s), Some pk -> ser true pk ^ " " ^ be32 r ^ " " ^ be32 s
+     | _ -> "fail")
   | _ -> "BADCASE"
 
 let zt h = Z.of_string ("0x" ^ h)
